@@ -389,7 +389,8 @@ impl<'a> ListStylist<'a> {
                     }
                 }
                 inner = inner.group();
-                if is_single && sty.omit_delim_single || sty.omit_delim_flat {
+                // As in the fitting layout, a comment keeps the delimiters of a single item.
+                if is_single && sty.omit_delim_single && !self.has_comment || sty.omit_delim_flat {
                     inner
                 } else if sty.add_delim_space {
                     inner
